@@ -3,6 +3,7 @@ package props
 import (
 	"encoding/json"
 	"fmt"
+	"math/big"
 	"strings"
 
 	"github.com/ja7ad/otp"
@@ -301,6 +302,39 @@ func c17Cases(c *Ctx, emit func(helperCase)) {
 	}
 	for _, v := range ref.OCRAVectors {
 		emit(helperCase{Op: "ParseDecimalChallengeRFC6287", S: []string{v.QuestionDec}})
+	}
+	// structured values: sums of a few powers of two / ten / sixteen (long zero runs in binary, decimal or hex), up to 64 digits
+	lim := new(big.Int).Exp(big.NewInt(10), big.NewInt(64), nil)
+	for i := 0; i < c.N(4000, 100000); i++ {
+		v := new(big.Int)
+		for t := 1 + rng.Intn(3); t > 0; t-- {
+			base := gen.Pick(rng, []int64{2, 2, 2, 10, 16})
+			maxE := map[int64]int{2: 212, 10: 63, 16: 53}[base]
+			e := rng.Intn(maxE + 1)
+			if base == 2 && rng.Bool() {
+				e = 8 * rng.Intn(27) // byte / word aligned
+				if rng.Bool() {
+					e = 64 * rng.Intn(4)
+				}
+			}
+			term := new(big.Int).Exp(big.NewInt(base), big.NewInt(int64(e)), nil)
+			term.Mul(term, big.NewInt(int64(1+rng.Intn(255))))
+			if rng.Intn(4) == 0 {
+				v.Sub(v, big.NewInt(int64(rng.Intn(3))))
+			}
+			v.Add(v, term)
+		}
+		if v.Sign() <= 0 || v.Cmp(lim) >= 0 {
+			continue
+		}
+		q := v.String()
+		emit(helperCase{Op: "ParseDecimalChallengeRFC6287", S: []string{q}})
+		if i%4 == 0 {
+			h := i % 3
+			d := 4 + i%7
+			raw := fmt.Sprintf("OCRA-1:HOTP-%s-%d:QN08", []string{"SHA1", "SHA256", "SHA512"}[h], d)
+			emit(helperCase{Op: "question-end-to-end", S: []string{q, hexs(rng.Bytes(20)), raw}, V: uint64(h), N: d})
+		}
 	}
 }
 
